@@ -94,12 +94,22 @@ def run_case(i, seed, tier):
     cfg = g.cfg(index=i + seed * 11)
     profile = common.PROFILES[(i // 3) % len(common.PROFILES)]
     nops = g.rng.choice([2, 5, 10, 16, 24]) if tier == 'quick' else g.rng.choice([4, 10, 20, 35, 50])
-    h = common.History(cfg, seed * 1000003 + i, profile)
-    h.extend(nops)
-    ops = list(h.ops)
-    h.sess.close()
+    if i % 4 == 1:
+        from harness.props import c11
+        cfg, pre, boot, post = c11.build(seed * 1000003 + i, tier)
+        ops = pre + boot + post
+        profile = 'boot'
+    elif i % 8 == 3:
+        from harness.props import c12
+        cfg, ops = c12.build(seed * 1000003 + i, valid_only=True)
+        profile = 'hybrid'
+    else:
+        h = common.History(cfg, seed * 1000003 + i, profile)
+        h.extend(nops)
+        ops = list(h.ops)
+        h.sess.close()
     vio = c01.dedup(check(cfg, ops, seed * 1000003 + i, counters))
-    feats = sum([bool(cfg.rr), bool(cfg.joliet), cfg.udf, cfg.xa])
+    feats = sum([bool(cfg.rr), bool(cfg.joliet), cfg.udf, cfg.xa, profile in ('boot', 'hybrid')])
     return {'verdict': 'violated' if vio else 'held',
             'violations': [dict(v, replay=common.replay_doc(PROPERTY, cfg, ops, seed * 1000003 + i)) for v in vio],
             'nontrivial': feats >= 2 and len(ops) >= 3, 'shape': common.shape_of(cfg, ops),
